@@ -4,6 +4,7 @@ import (
 	"context"
 	"fmt"
 	"sort"
+	"strings"
 
 	"github.com/bartossh/Computantis/src/accountant"
 	"verif.local/harness/common"
@@ -19,6 +20,7 @@ import (
 
 func c10Body(ops []string) func(x *sched.X) {
 	return func(x *sched.X) {
+		ops := ops // per execution: the "stream+" items are taken out below, which must not reach the next execution
 		vsched.Quiet(true)
 		src := world.GetNodes("G")
 		w := world.NewLW(src, sp(10, 0), 0)
@@ -157,6 +159,10 @@ func c10Scenarios() map[string]*sched.Scenario {
 	m := map[string]*sched.Scenario{}
 	opt := vsched.Options{BranchSched: true, BranchData: false, KeyFunc: world.KeyFunc}
 	add := func(name string, ops ...string) {
+		opt := opt
+		if strings.HasPrefix(name, "sync-of-stream-") {
+			opt.BranchData = true
+		}
 		m[name] = &sched.Scenario{Name: name, Params: []int{0}, Opt: opt, Body: c10Body(ops), Oracle: c10Oracle(name),
 			Setup:       func() { world.GetNodes("G", "N1") },
 			Interesting: func(x *sched.X, r *vsched.Result) bool { return true }}
@@ -193,7 +199,11 @@ func schedPart(rep *common.Report, id string, scs map[string]*sched.Scenario, pr
 	var jobs []sched.Job
 	for _, n := range names {
 		for s := 0; s < shards; s++ {
-			jobs = append(jobs, sched.Job{Scenario: n, Preempt: pre, Data: data, Sched: sd, ShardI: s, ShardN: shards})
+			d := data
+			if id == "C10" && strings.HasPrefix(n, "sync-of-stream-") {
+				d = 2
+			}
+			jobs = append(jobs, sched.Job{Scenario: n, Preempt: pre, Data: d, Sched: sd, ShardI: s, ShardN: shards})
 		}
 	}
 	totalBudget := 60.0
